@@ -1,3 +1,2006 @@
-//! (stub)
+//! Variation tables, hand-written parts: `variations.rs` (tuple variation store, delta set index
+//! map, item variation store), `gvar.rs`, `cvar.rs`, `hvar.rs`, `vvar.rs`, `mvar.rs`, `avar.rs`,
+//! `fvar.rs`, `instance_record.rs` and the `ComputedArray` / `VarLenArray` accessors of `array.rs`
+//! that these tables hand out.
+//!
+//! Every section has its own generator of structurally valid tables (with hostile-but-parsable
+//! shapes mixed in) and a walk that calls every hand-written function with boundary-dense external
+//! arguments.  External arguments that a font would normally provide (`axis_count` of cvar, the
+//! normalized coordinates, the point count of the glyph) are a prefix of the driven bytes, so that
+//! `Ctx::drive` mutates them together with the table.
+use super::varc::packed_deltas;
 use super::*;
-pub fn run(_ctx: &mut Ctx) {}
+use font_types::{F26Dot6, F2Dot14, Fixed, GlyphId, Point, Tag};
+use read_fonts::tables::avar::{Avar, SegmentMaps};
+use read_fonts::tables::cvar::Cvar;
+use read_fonts::tables::fvar::{Fvar, InstanceRecord};
+use read_fonts::tables::glyf::{Glyf, PointFlags};
+use read_fonts::tables::gvar::{GlyphDelta, Gvar, GvarFlags, U16Or32};
+use read_fonts::tables::hvar::Hvar;
+use read_fonts::tables::loca::Loca;
+use read_fonts::tables::mvar::Mvar;
+use read_fonts::tables::variations::{
+    DeltaSetIndex, DeltaSetIndexMap, EntryFormat, FloatItemDeltaTarget, ItemVariationData, ItemVariationStore, Tuple, TupleDelta, TupleIndex, TupleVariation,
+    TupleVariationCount, TupleVariationData, TupleVariationHeader, VariationRegion,
+};
+use read_fonts::tables::vvar::Vvar;
+use read_fonts::{ComputeSize, FontData, FontRead, FontReadWithArgs, ReadError, VarSize};
+
+// ------------------------------------------------------------------------------------------------
+// shared helpers
+
+/// development aid: `C01_HAND_SKIP_KNOWN=1` leaves out the calls that trigger the reported findings,
+/// so that the rest of the group can be seen green.  Never set in the real runs.
+pub fn skip_known() -> bool {
+    std::env::var_os("C01_HAND_SKIP_KNOWN").is_some()
+}
+
+fn be16(b: &[u8], at: usize) -> Option<u16> {
+    Some(u16::from_be_bytes([*b.get(at)?, *b.get(at + 1)?]))
+}
+
+/// `[n u8][n × i16]` prefix → coordinates, rest
+fn take_coords(bytes: &[u8]) -> Option<(Vec<F2Dot14>, &[u8])> {
+    let n = (*bytes.first()? & 0x7F) as usize;
+    let cb = bytes.get(1..1 + 2 * n)?;
+    let coords = cb.chunks(2).map(|c| F2Dot14::from_bits(i16::from_be_bytes([c[0], c[1]]))).collect();
+    Some((coords, &bytes[1 + 2 * n..]))
+}
+
+fn put_coords(b: &mut B, coords: &[i16]) {
+    b.u8(coords.len() as u8);
+    for c in coords {
+        b.i16(*c);
+    }
+}
+
+fn rcoord(rng: &mut Rng) -> i16 {
+    match rng.below(9) {
+        0 => 0,
+        1 => 0x4000,
+        2 => -0x4000,
+        3 => 0x2000,
+        4 => -0x2000,
+        5 => 0x1000,
+        6 => *rng.pick(&[1i16, -1, 0x7FFF, -0x8000, 0x4001, -0x4001, 0x3FFF]),
+        _ => rng.next() as i16,
+    }
+}
+
+fn rcoords(rng: &mut Rng, axis_count: u16) -> Vec<i16> {
+    let n = match rng.below(6) {
+        0 => axis_count.saturating_sub(1),
+        1 => axis_count.saturating_add(1).min(100),
+        _ => axis_count.min(100),
+    };
+    (0..n).map(|_| rcoord(rng)).collect()
+}
+
+/// the coordinate slices every lookup is called with: as given, empty, one short, one long
+fn coord_variants(coords: &[F2Dot14]) -> Vec<Vec<F2Dot14>> {
+    let mut v = vec![coords.to_vec(), vec![]];
+    if !coords.is_empty() {
+        v.push(coords[..coords.len() - 1].to_vec());
+    }
+    let mut long = coords.to_vec();
+    long.push(F2Dot14::from_bits(0x2000));
+    v.push(long);
+    v
+}
+
+fn note_tuple(o: &mut Obs, t: &Tuple) {
+    o.note(t.len() as u64);
+    o.note(t.is_empty() as u64);
+    for i in edge_usize(&[t.len()]) {
+        o.note(t.get(i).map(|v| (v.to_bits() as u16 as u64) + 1).unwrap_or(0));
+    }
+    for v in t.values().iter().take(70) {
+        o.note(v.get().to_bits() as u64);
+    }
+}
+
+fn note_fixed_res(o: &mut Obs, r: &Result<Fixed, ReadError>) {
+    if o.res(r) {
+        o.note(r.as_ref().unwrap().to_bits() as u64);
+    }
+}
+
+// ------------------------------------------------------------------------------------------------
+// packed point numbers + tuple variation store generator
+
+/// packed point numbers; returns the number of points (0 = all points)
+fn packed_points(rng: &mut Rng, intact: &mut bool) -> (Vec<u8>, usize) {
+    match rng.below(9) {
+        0 | 1 => return (vec![0], 0),
+        2 => return (vec![0x80, 0x00], 0),
+        _ => {}
+    }
+    let n: usize = match rng.below(7) {
+        0 => 1,
+        1 => 126 + rng.below(5) as usize,
+        2 => 2,
+        _ => 1 + rng.below(10) as usize,
+    };
+    let mut out = vec![];
+    if n < 128 && rng.chance(5, 6) {
+        out.push(n as u8);
+    } else {
+        out.push(0x80 | (n >> 8) as u8);
+        out.push(n as u8);
+    }
+    let mut i = 0;
+    while i < n {
+        let run = 1 + rng.below((n - i).min(128) as u64) as usize;
+        let words = rng.chance(1, 4);
+        out.push((run as u8 - 1) | if words { 0x80 } else { 0 });
+        for _ in 0..run {
+            if words {
+                let d = if rng.chance(1, 8) { rng.next() as u16 } else { rng.below(300) as u16 };
+                out.extend_from_slice(&d.to_be_bytes());
+            } else {
+                // zero deltas give duplicated point numbers
+                out.push(if rng.chance(1, 6) { 0 } else { rng.below(4) as u8 + rng.chance(1, 10) as u8 * 200 });
+            }
+        }
+        i += run;
+    }
+    if rng.chance(1, 10) && out.len() > 2 {
+        // the runs end before the announced count
+        let cut = 1 + rng.below(out.len() as u64 - 1) as usize;
+        out.truncate(cut);
+        *intact = false;
+    }
+    (out, n)
+}
+
+fn rdelta(rng: &mut Rng) -> i32 {
+    match rng.below(12) {
+        0 => rng.next() as i32,
+        1 => i32::MAX,
+        2 => i32::MIN,
+        3 => 0,
+        4 => rng.range(-40000, 40000) as i32,
+        _ => rng.range(-200, 200) as i32,
+    }
+}
+
+/// `[tupleVariationCount][dataOffset][headers…][serialized data]`; `base` = bytes of the enclosing
+/// table in front of the count field (the data offset is relative to the table start).
+/// Returns the block and the number of tuples a reader is expected to yield (`None` when a hostile
+/// size / count was generated).
+fn tuple_store(rng: &mut Rng, axis_count: u16, is_point: bool, n_shared: u16, base: usize, n_points: usize) -> (B, Option<usize>) {
+    let n_tuples = match rng.below(7) {
+        0 => 0,
+        1 => 1,
+        _ => 1 + rng.below(4) as usize,
+    };
+    let mut clean = true;
+    let shared_points = rng.chance(1, 2);
+    let mut ser: Vec<u8> = vec![];
+    let mut shared_count = 0usize;
+    if shared_points {
+        let (p, n) = packed_points(rng, &mut clean);
+        ser.extend(p);
+        shared_count = n;
+    }
+    let mut headers = B::new();
+    for _ in 0..n_tuples {
+        let mut ti: u16 = 0;
+        let embedded = if n_shared == 0 { rng.chance(7, 8) } else { rng.chance(1, 2) };
+        if embedded {
+            ti |= TupleIndex::EMBEDDED_PEAK_TUPLE | (rng.below(3) as u16);
+        } else {
+            ti |= match rng.below(8) {
+                0 => n_shared,
+                1 => 0x0FFF,
+                _ => rng.below(n_shared.max(1) as u64) as u16,
+            } & TupleIndex::TUPLE_INDEX_MASK;
+        }
+        let inter = rng.chance(1, 3);
+        if inter {
+            ti |= TupleIndex::INTERMEDIATE_REGION;
+        }
+        let private = if shared_points { rng.chance(1, 3) } else { rng.chance(3, 4) };
+        if private {
+            ti |= TupleIndex::PRIVATE_POINT_NUMBERS;
+        }
+        if rng.chance(1, 12) {
+            ti |= 0x1000;
+        }
+        let mut body = vec![];
+        let mut count = shared_count;
+        if private {
+            let (p, n) = packed_points(rng, &mut clean);
+            body.extend(p);
+            count = n;
+        }
+        let n_vals = if count == 0 { n_points } else { count } * if is_point { 2 } else { 1 };
+        let n_vals = match rng.below(10) {
+            0 => n_vals.saturating_sub(1),
+            1 => n_vals + 1,
+            2 => n_vals / 2,
+            _ => n_vals,
+        };
+        let vals: Vec<i32> = (0..n_vals).map(|_| rdelta(rng)).collect();
+        body.extend(packed_deltas(&vals, rng));
+        let size = match rng.below(14) {
+            0 => body.len() + 1,
+            1 => body.len().saturating_sub(1),
+            2 => 0xFFFF,
+            _ => body.len(),
+        };
+        if size != body.len() {
+            clean = false;
+        }
+        headers.f16(size as u16).f16(ti);
+        let peaks: Vec<i16> = (0..axis_count).map(|_| rcoord(rng)).collect();
+        if embedded {
+            for p in &peaks {
+                headers.i16(*p);
+            }
+        }
+        if inter {
+            let hostile = rng.chance(1, 5);
+            let mut starts = vec![];
+            let mut ends = vec![];
+            for p in &peaks {
+                if hostile {
+                    starts.push(rcoord(rng));
+                    ends.push(rcoord(rng));
+                } else {
+                    starts.push(p.saturating_sub(rng.below(0x3000) as i16));
+                    ends.push(p.saturating_add(rng.below(0x3000) as i16));
+                }
+            }
+            for s in starts {
+                headers.i16(s);
+            }
+            for e in ends {
+                headers.i16(e);
+            }
+        }
+        ser.extend(body);
+    }
+    let mut b = B::new();
+    let count = match rng.below(12) {
+        0 => n_tuples + 1,
+        1 => n_tuples.saturating_sub(1),
+        2 => 0x0FFF,
+        _ => n_tuples,
+    };
+    if count != n_tuples {
+        clean = false;
+    }
+    b.f16(count as u16 | if shared_points { TupleVariationCount::SHARED_POINT_NUMBERS } else { 0 } | if rng.chance(1, 12) { 0x4000 } else { 0 });
+    b.f16((base + 4 + headers.len()) as u16);
+    b.append(&headers);
+    b.bytes(&ser);
+    if rng.chance(1, 6) {
+        b.bytes(&rng.bytes(3));
+    }
+    (b, clean.then_some(n_tuples))
+}
+
+// ------------------------------------------------------------------------------------------------
+// TupleVariationData / TupleVariation walk (shared by gvar and cvar)
+
+fn walk_tuple_common<'a, T: TupleDelta>(o: &mut Obs, len: usize, t: &TupleVariation<'a, T>, coords: &[F2Dot14], note_delta: &dyn Fn(&mut Obs, &T), full: bool) {
+    note_tuple(o, &t.peak());
+    match t.intermediate_start() {
+        Some(s) => note_tuple(o, &s),
+        None => o.note(0),
+    }
+    match t.intermediate_end() {
+        Some(s) => note_tuple(o, &s),
+        None => o.note(0),
+    }
+    for c in coord_variants(coords) {
+        o.note(t.compute_scalar(&c).map(|f| (f.to_bits() as u32 as u64) + 1).unwrap_or(0));
+        o.note(t.compute_scalar_f32(&c).map(|f| f.to_bits() as u64 + 1).unwrap_or(0));
+    }
+    o.note(t.has_deltas_for_all_points() as u64);
+    // point numbers: at most 0x7FFF explicit points, or 0..=0xFFFE for "all points"
+    let pn = t.point_numbers();
+    o.note(pn.len() as u64);
+    if full {
+        o.drain("point_numbers", 65536, pn, |o, p| o.note(p as u64));
+    } else {
+        o.drain("point_numbers.head", 300, pn.take(300), |o, p| o.note(p as u64));
+    }
+    // every byte of packed deltas yields at most 64 values
+    o.drain("deltas", 64 * len + 64, t.deltas(), |o, d| note_delta(o, &d));
+}
+
+fn walk_tvd<'a, T: TupleDelta>(o: &mut Obs, len: usize, tvd: &TupleVariationData<'a, T>, coords: &'a [F2Dot14], note_delta: &dyn Fn(&mut Obs, &T), each: &mut dyn FnMut(&mut Obs, usize, &TupleVariation<'a, T>)) -> usize {
+    // every tuple consumes a header of at least 4 bytes
+    let cap = len / 4 + 1;
+    let full = o.digest % 4 == 0;
+    let mut k = 0usize;
+    let n = o.drain("tuples", cap, tvd.tuples(), |o, t| {
+        if k < 6 {
+            walk_tuple_common(o, len, &t, coords, note_delta, full && k == 0);
+            each(o, k, &t);
+        } else {
+            o.note(t.has_deltas_for_all_points() as u64);
+        }
+        k += 1;
+    });
+    o.drain("active_tuples_at", cap, tvd.active_tuples_at(coords), |o, (t, s)| {
+        o.note(s.to_bits() as u64);
+        o.note(t.has_deltas_for_all_points() as u64);
+    });
+    n
+}
+
+// ------------------------------------------------------------------------------------------------
+// TupleVariationHeader / TupleIndex / TupleVariationCount
+
+/// `[axis_count u16][header bytes]`
+fn walk_tvh(bytes: &[u8], o: &mut Obs) {
+    let Some(ac) = be16(bytes, 0) else { return };
+    let r = TupleVariationHeader::read(FontData::new(&bytes[2..]), ac);
+    if !o.res(&r) {
+        return;
+    }
+    let h = r.unwrap();
+    o.note(h.variation_data_size() as u64);
+    let ti = h.tuple_index();
+    o.note(ti.bits() as u64);
+    o.note(ti.embedded_peak_tuple() as u64);
+    o.note(ti.intermediate_region() as u64);
+    o.note(ti.private_point_numbers() as u64);
+    o.note(ti.tuple_records_index().map(|v| v as u64 + 1).unwrap_or(0));
+    o.note((TupleIndex::from_bits(ti.bits()) == ti) as u64);
+    for t in [h.peak_tuple(), h.intermediate_start_tuple(), h.intermediate_end_tuple()] {
+        match t {
+            Some(t) => {
+                // the embedded tuples have exactly axis_count values
+                if t.len() != ac as usize {
+                    o.over = Some(format!("embedded tuple with {} values for {} axes", t.len(), ac));
+                }
+                note_tuple(o, &t)
+            }
+            None => o.note(0),
+        }
+    }
+    match h.intermediate_tuples() {
+        Some((a, b)) => {
+            note_tuple(o, &a);
+            note_tuple(o, &b);
+        }
+        None => o.note(0),
+    }
+}
+
+fn header_bytes(rng: &mut Rng, axis_count: u16, flags: u16) -> B {
+    let mut b = B::new();
+    b.f16(axis_count);
+    b.f16(rng.below(40) as u16).f16(flags);
+    let n = (flags & 0x8000 != 0) as usize + 2 * (flags & 0x4000 != 0) as usize;
+    for _ in 0..n * axis_count as usize {
+        b.i16(rcoord(rng));
+    }
+    b
+}
+
+fn run_tvh(ctx: &mut Ctx) {
+    for flags in [0u16, 0x8000, 0x4000, 0xC000, 0x2000, 0xE000, 0xFFFF, 0x0FFF, 0x8001] {
+        for ac in [0u16, 1, 2, 5] {
+            let b = header_bytes(&mut ctx.rng, ac, flags);
+            ctx.drive("tvh", &b, &walk_tvh);
+            ctx.count(&format!("tvh.flags{:x}", flags >> 12));
+        }
+    }
+    // axis_count beyond the data, up to 0xFFFF (3 tuples × 2 bytes × 0xFFFF axes)
+    for ac in [0x7FFFu16, 0x8000, 0xFFFE, 0xFFFF] {
+        for flags in [0x8000u16, 0xC000, 0x4000] {
+            let mut v = vec![];
+            v.extend_from_slice(&ac.to_be_bytes());
+            v.extend_from_slice(&[0, 4]);
+            v.extend_from_slice(&flags.to_be_bytes());
+            let need = ((flags & 0x8000 != 0) as usize + 2 * (flags & 0x4000 != 0) as usize) * ac as usize * 2;
+            for extra in [need.saturating_sub(2), need.saturating_sub(1), need, need + 1, 0, 7] {
+                let mut w = v.clone();
+                w.resize(v.len() + extra, 0x11);
+                ctx.call("tvh.big", &w, &walk_tvh);
+            }
+        }
+    }
+    ctx.drive_random("tvh", if ctx.thorough { 3000 } else { 500 }, 24, &walk_tvh);
+    // the bit helpers, exhaustively
+    ctx.call("tuple-bits", &[], &|_b, o| {
+        for bits in 0..=0xFFFFu16 {
+            let ti = TupleIndex::from_bits(bits);
+            let ok = ti.bits() == bits
+                && ti.embedded_peak_tuple() == (bits & 0x8000 != 0)
+                && ti.intermediate_region() == (bits & 0x4000 != 0)
+                && ti.private_point_numbers() == (bits & 0x2000 != 0)
+                && ti.tuple_records_index() == if bits & 0x8000 != 0 { None } else { Some(bits & 0x0FFF) };
+            let tc = TupleVariationCount::from_bits(bits);
+            let ok2 = tc.bits() == bits && tc.count() == bits & 0x0FFF && tc.shared_point_numbers() == (bits & 0x8000 != 0);
+            if !(ok && ok2) && o.over.is_none() {
+                o.over = Some(format!("TupleIndex / TupleVariationCount bit helpers wrong for {bits:#x}"));
+            }
+            o.note(ti.tuple_records_index().unwrap_or(0xFFFF) as u64 ^ tc.count() as u64);
+        }
+    });
+}
+
+// ------------------------------------------------------------------------------------------------
+// cvar
+
+fn cvar_table(rng: &mut Rng, axis_count: u16) -> (B, Option<usize>) {
+    let mut b = B::new();
+    b.u16(1).u16(0);
+    let n_cvt = 1 + rng.below(12) as usize;
+    let (store, n) = tuple_store(rng, axis_count, false, 0, 4, n_cvt);
+    b.append(&store);
+    (b, n)
+}
+
+/// `[axis_count u16][coords][cvar]`
+fn walk_cvar(bytes: &[u8], o: &mut Obs) {
+    let Some(ac) = be16(bytes, 0) else { return };
+    let Some((coords, table)) = take_coords(&bytes[2..]) else { return };
+    let len = table.len();
+    let r = Cvar::read(FontData::new(table));
+    if !o.res(&r) {
+        return;
+    }
+    let cvar = r.unwrap();
+    o.note(cvar.tuple_variation_count().bits() as u64);
+    for axis_count in [ac, 0, ac.wrapping_add(1), 0xFFFF] {
+        let r = cvar.variation_data(axis_count);
+        if !o.res(&r) {
+            continue;
+        }
+        let tvd = r.unwrap();
+        walk_tvd(o, len, &tvd, &coords, &|o, d| {
+            o.note(d.position as u64);
+            o.note(d.value as u64);
+            for s in [Fixed::ONE, Fixed::from_bits(0x8000), Fixed::MAX, Fixed::MIN, Fixed::from_bits(-1)] {
+                o.note(d.apply_scalar(s).to_bits() as u64);
+            }
+        }, &mut |_o, _k, _t| {});
+        for (k, c) in coord_variants(&coords).iter().enumerate() {
+            for n in [0usize, 1, 7, 300, 70000] {
+                if n == 70000 && (k > 0 || axis_count != ac) {
+                    continue;
+                }
+                let mut deltas = vec![0i32; n];
+                if n > 1 {
+                    deltas[0] = i32::MAX;
+                    deltas[1] = i32::MIN;
+                }
+                let r = cvar.deltas(axis_count, c, &mut deltas);
+                o.res(&r);
+                for d in deltas.iter().take(300) {
+                    o.note(*d as u64);
+                }
+            }
+        }
+    }
+}
+
+fn run_cvar(ctx: &mut Ctx) {
+    let rounds = if ctx.thorough { 150 } else { 26 };
+    for round in 0..rounds {
+        let ac = match round % 6 {
+            0 => 0,
+            1 => 1,
+            5 => 7,
+            _ => 1 + ctx.rng.below(3) as u16,
+        };
+        let (t, expect) = cvar_table(&mut ctx.rng, ac);
+        let mut b = B::new();
+        b.f16(ac);
+        let coords = rcoords(&mut ctx.rng, ac);
+        put_coords(&mut b, &coords);
+        b.append(&t);
+        ctx.drive("cvar", &b, &walk_cvar);
+        ctx.count(&format!("cvar.axes{}", ac.min(4)));
+        // relational: a clean store yields exactly its tuples (every header fits, sizes add up)
+        if let (Some(n), Ok(cvar)) = (expect, Cvar::read(FontData::new(&t.v))) {
+            let r = catch(|| cvar.variation_data(ac).map(|d| d.tuples().take(5000).count()).unwrap_or(usize::MAX));
+            ctx.oracle("cvar.tuple-count", r == Ok(n), || format!("cvar {} axis_count {}", hex(&t.v), ac), || format!("expected {n} tuples, got {r:?}"));
+            ctx.count("cvar.clean");
+        }
+    }
+    ctx.drive_random("cvar", if ctx.thorough { 3000 } else { 400 }, 64, &walk_cvar);
+}
+
+// ------------------------------------------------------------------------------------------------
+// gvar
+
+struct GvarSpec {
+    axis_count: u16,
+    n_shared: u16,
+    glyphs: Vec<Vec<u8>>,
+    long: bool,
+}
+
+/// returns the table and, per glyph, the (start, end) range of its data inside the table
+fn gvar_table(rng: &mut Rng, s: &GvarSpec) -> (B, Vec<(usize, usize)>) {
+    let mut b = B::new();
+    b.u16(1).u16(0);
+    b.f16(s.axis_count).f16(s.n_shared).f32(0);
+    b.f16(s.glyphs.len() as u16).f16(s.long as u16).f32(0);
+    let mut off = 0u32;
+    for k in 0..=s.glyphs.len() {
+        if s.long {
+            b.f32(off);
+        } else {
+            b.f16((off / 2) as u16);
+        }
+        if k < s.glyphs.len() {
+            off += s.glyphs[k].len() as u32;
+        }
+    }
+    let at = b.len();
+    b.set32(8, at as u32);
+    for _ in 0..s.n_shared as usize * s.axis_count as usize {
+        b.i16(rcoord(rng));
+    }
+    let at = b.len();
+    b.set32(16, at as u32);
+    let mut ranges = vec![];
+    for g in &s.glyphs {
+        ranges.push((b.len(), b.len() + g.len()));
+        b.bytes(g);
+    }
+    (b, ranges)
+}
+
+fn glyf_loca() -> (Vec<u8>, Vec<u8>) {
+    let mut g = B::new();
+    let mut offs = vec![0u32, 0];
+    // 1: simple glyph, 3 points
+    g.i16(1).i16(0).i16(0).i16(100).i16(100).u16(2).u16(0);
+    g.bytes(&[1, 1, 1]);
+    for v in [0i16, 100, -50, 0, 0, 100] {
+        g.i16(v);
+    }
+    g.u8(0);
+    offs.push(g.len() as u32);
+    // 2: composite, component glyph 1 with USE_MY_METRICS
+    g.i16(-1).i16(0).i16(0).i16(100).i16(100).u16(0x0201).u16(1).i16(0).i16(0);
+    offs.push(g.len() as u32);
+    // 3: composite referring to itself with USE_MY_METRICS
+    g.i16(-1).i16(0).i16(0).i16(100).i16(100).u16(0x0201).u16(3).i16(0).i16(0);
+    offs.push(g.len() as u32);
+    // 4: composite with two plain components
+    g.i16(-1).i16(0).i16(0).i16(100).i16(100).u16(0x0021).u16(1).i16(0).i16(0).u16(0x0001).u16(1).i16(5).i16(5);
+    offs.push(g.len() as u32);
+    // 5: composite -> 2 -> 1
+    g.i16(-1).i16(0).i16(0).i16(100).i16(100).u16(0x0201).u16(2).i16(0).i16(0);
+    offs.push(g.len() as u32);
+    let mut l = B::new();
+    for o in offs {
+        l.u32(o);
+    }
+    (g.v, l.v)
+}
+
+fn note_point<D: read_fonts::tables::glyf::PointCoord>(o: &mut Obs, p: &Point<D>) {
+    o.note(p.x.to_f32().to_bits() as u64);
+    o.note(p.y.to_f32().to_bits() as u64);
+}
+
+fn accumulate<D: read_fonts::tables::glyf::PointCoord>(o: &mut Obs, t: &TupleVariation<GlyphDelta>, n: usize, nf: usize, scalar: Fixed, seed: D) {
+    let mut deltas = vec![Point::new(seed, seed); n];
+    let r = t.accumulate_dense_deltas(&mut deltas, scalar);
+    o.res(&r);
+    for p in deltas.iter().take(24) {
+        note_point(o, p);
+    }
+    let mut deltas = vec![Point::new(seed, seed); n];
+    let mut flags = vec![PointFlags::default(); nf];
+    let r = t.accumulate_sparse_deltas(&mut deltas, &mut flags, scalar);
+    o.res(&r);
+    for p in deltas.iter().take(24) {
+        note_point(o, p);
+    }
+    for f in flags.iter().take(24) {
+        o.note(f.to_bits() as u64);
+    }
+}
+
+/// `[coords][n_points u8][gvar]`
+fn walk_gvar(bytes: &[u8], o: &mut Obs) {
+    let Some((coords, rest)) = take_coords(bytes) else { return };
+    let Some((&n_points, table)) = rest.split_first() else { return };
+    let n_points = n_points as usize;
+    let len = table.len();
+    let r = Gvar::read(FontData::new(table));
+    if !o.res(&r) {
+        return;
+    }
+    let gvar = r.unwrap();
+    let glyph_count = gvar.glyph_count();
+    o.note(gvar.axis_count() as u64);
+    o.note(gvar.shared_tuple_count() as u64);
+    o.note(glyph_count as u64);
+    o.note(gvar.flags().bits() as u64);
+    o.note(gvar.glyph_variation_data_array_offset() as u64);
+    o.note(gvar.as_bytes().len() as u64);
+    // ComputedArray<Tuple>: items of 2 * axis_count bytes
+    let st = gvar.shared_tuples();
+    if o.res(&st) {
+        let tuples = st.unwrap().tuples();
+        o.note(tuples.len() as u64);
+        o.note(tuples.is_empty() as u64);
+        let n_iter = o.drain("shared_tuples.iter", len / 2 + 1, tuples.iter(), |o, t| {
+            if o.res(&t) {
+                o.note(t.unwrap().len() as u64);
+            }
+        });
+        if n_iter != tuples.len() && o.over.is_none() {
+            o.over = Some(format!("shared_tuples.iter yields {n_iter} items, len() = {}", tuples.len()));
+        }
+        for i in edge_usize(&[tuples.len(), gvar.shared_tuple_count() as usize]) {
+            let t = tuples.get(i);
+            if o.res(&t) {
+                note_tuple(o, &t.unwrap());
+            }
+        }
+    }
+    // ComputedArray<U16Or32>
+    let offs = gvar.glyph_variation_data_offsets();
+    o.note(offs.len() as u64);
+    let n_iter = o.drain("offsets.iter", len / 2 + 1, offs.iter(), |o, v| {
+        if o.res(&v) {
+            o.note(v.unwrap().get() as u64);
+        }
+    });
+        if n_iter != offs.len() && o.over.is_none() {
+            o.over = Some(format!("offsets.iter yields {n_iter} items, len() = {}", offs.len()));
+        }
+    for i in edge_usize(&[offs.len(), glyph_count as usize]) {
+        let v = offs.get(i);
+        if o.res(&v) {
+            o.note(v.unwrap().get() as u64);
+        }
+    }
+    for (a, b) in [(0usize, 0usize), (0, len), (0, len + 1), (len, len), (5, 2), (1, 3), (usize::MAX, usize::MAX), (usize::MAX - 1, usize::MAX), (0, usize::MAX), (u32::MAX as usize, u32::MAX as usize + 1)] {
+        let r = gvar.glyph_variation_data_for_range(a..b);
+        if o.res(&r) {
+            o.note(r.unwrap().len() as u64);
+        }
+    }
+    let mut gids = edge32(&[glyph_count as u64]);
+    gids.extend(0..(glyph_count as u32).min(6));
+    for gid in gids {
+        let gid = GlyphId::new(gid);
+        let d = gvar.data_for_gid(gid);
+        if o.res(&d) {
+            match d.unwrap() {
+                Some(d) => o.note_bytes(&d.as_bytes()[..d.len().min(8)]),
+                None => o.note(7),
+            }
+        }
+        let r = gvar.glyph_variation_data(gid);
+        if !o.res(&r) {
+            continue;
+        }
+        let Some(tvd) = r.unwrap() else {
+            o.note(8);
+            continue;
+        };
+        walk_tvd(
+            o,
+            len,
+            &tvd,
+            &coords,
+            &|o, d| {
+                o.note(d.position as u64);
+                o.note(d.x_delta as u64);
+                o.note(d.y_delta as u64);
+                for s in [Fixed::ONE, Fixed::from_bits(0x8000), Fixed::MAX, Fixed::MIN] {
+                    note_point(o, &d.apply_scalar::<Fixed>(s));
+                    note_point(o, &d.apply_scalar::<F26Dot6>(s));
+                    note_point(o, &d.apply_scalar::<f32>(s));
+                }
+                // integer coordinates: only with scalars a tuple can produce (0 ..= 1.0)
+                note_point(o, &d.apply_scalar::<i32>(Fixed::ONE));
+                note_point(o, &d.apply_scalar::<i32>(Fixed::from_bits(0x4000)));
+            },
+            &mut |o, k, t| {
+                let total = n_points + 4;
+                let mut sizes = vec![0usize, 1, total.saturating_sub(1), total, total + 1, 64];
+                if k == 0 {
+                    sizes.extend([2, n_points, 129, 400]);
+                }
+                for n in sizes {
+                    for (nf, scalar) in [(n, Fixed::ONE), (n.saturating_sub(1), Fixed::from_bits(0x8000)), (n + 1, Fixed::MIN), (0, Fixed::MAX)] {
+                        accumulate::<Fixed>(o, t, n, nf, scalar, Fixed::from_bits(7));
+                        if k == 0 {
+                            accumulate::<F26Dot6>(o, t, n, nf, scalar, F26Dot6::from_bits(-3));
+                            accumulate::<f32>(o, t, n, nf, scalar, 0.5);
+                        }
+                    }
+                }
+            },
+        );
+    }
+}
+
+/// Integer point coordinates (`PointCoord for i32`), fresh zeroed buffers, on the generated tables
+/// only (not on their mutations, to keep the failure list short).
+/// FINDING: `accumulate_sparse_deltas::<i32>` overflows `delta.x += …` (variations.rs:989/995) when a
+/// tuple lists the same point number twice with 32 bit deltas; C01_HAND_SKIP_KNOWN=1 skips this walk.
+fn walk_gvar_i32(bytes: &[u8], o: &mut Obs) {
+    let Some((_, rest)) = take_coords(bytes) else { return };
+    let Some((&n_points, table)) = rest.split_first() else { return };
+    let Ok(gvar) = Gvar::read(FontData::new(table)) else { return };
+    for gid in 0..(gvar.glyph_count() as u32).min(6) {
+        let Ok(Some(tvd)) = gvar.glyph_variation_data(GlyphId::new(gid)) else { continue };
+        o.drain("tuples", table.len() / 4 + 1, tvd.tuples(), |o, t| {
+            let total = n_points as usize + 4;
+            for n in [total, 0, 1, total + 1, 400] {
+                for scalar in [Fixed::ONE, Fixed::from_bits(0x8000)] {
+                    accumulate::<i32>(o, &t, n, n, scalar, 0);
+                }
+            }
+        });
+    }
+}
+
+/// phantom point deltas need glyf + loca: `[coords][n_points][gvar]` with the fixed glyph set
+fn walk_phantom(bytes: &[u8], o: &mut Obs) {
+    let Some((coords, rest)) = take_coords(bytes) else { return };
+    let Some((_, table)) = rest.split_first() else { return };
+    let Ok(gvar) = Gvar::read(FontData::new(table)) else { return };
+    let (g, l) = glyf_loca();
+    let glyf = Glyf::read(FontData::new(&g)).unwrap();
+    let loca = Loca::read(FontData::new(&l), true).unwrap();
+    let mut gids = edge32(&[gvar.glyph_count() as u64, 6]);
+    gids.extend(0..8);
+    for gid in gids {
+        for c in coord_variants(&coords) {
+            let r = gvar.phantom_point_deltas(&glyf, &loca, &c, GlyphId::new(gid));
+            if o.res(&r) {
+                match r.unwrap() {
+                    Some(ps) => {
+                        for p in ps {
+                            note_point(o, &p);
+                        }
+                    }
+                    None => o.note(9),
+                }
+            }
+        }
+    }
+}
+
+fn walk_u16or32(bytes: &[u8], o: &mut Obs) {
+    for bits in [0u16, 1, 2, 3, 0xFFFF] {
+        let flags = GvarFlags::from_bits_truncate(bits);
+        o.res(&U16Or32::compute_size(&flags));
+        let r = U16Or32::read_with_args(FontData::new(bytes), &flags);
+        if o.res(&r) {
+            o.note(r.unwrap().get() as u64);
+        }
+    }
+}
+
+fn run_gvar(ctx: &mut Ctx) {
+    let rounds = if ctx.thorough { 120 } else { 20 };
+    for round in 0..rounds {
+        let axis_count = match round % 5 {
+            0 => 0,
+            1 => 1,
+            _ => 1 + ctx.rng.below(3) as u16,
+        };
+        let n_shared = if round % 3 == 0 { 0 } else { 1 + ctx.rng.below(3) as u16 };
+        let long = round % 2 == 0;
+        // glyph 1 of the phantom fixture has 3 points
+        let n_points = if round % 4 == 0 { 3 } else { 1 + ctx.rng.below(9) as usize };
+        let n_glyphs = if round % 4 == 0 { 6 } else { 1 + ctx.rng.below(3) as usize };
+        let mut glyphs = vec![];
+        let mut clean = vec![];
+        for k in 0..n_glyphs {
+            if ctx.rng.chance(1, 4) && k != 1 {
+                glyphs.push(vec![]);
+                clean.push(None);
+                continue;
+            }
+            let (t, n) = tuple_store(&mut ctx.rng, axis_count, true, n_shared, 0, n_points + 4);
+            let mut v = t.v;
+            if v.len() % 2 == 1 {
+                v.push(0);
+            }
+            glyphs.push(v);
+            clean.push(n);
+        }
+        let spec = GvarSpec { axis_count, n_shared, glyphs, long };
+        let (t, ranges) = gvar_table(&mut ctx.rng, &spec);
+        let mut b = B::new();
+        let coords = rcoords(&mut ctx.rng, axis_count);
+        put_coords(&mut b, &coords);
+        b.u8(n_points as u8);
+        b.append(&t);
+        ctx.drive("gvar", &b, &walk_gvar);
+        ctx.count(if long { "gvar.long" } else { "gvar.short" });
+        if !skip_known() {
+            ctx.call("gvar.i32", &b.v, &walk_gvar_i32);
+        }
+        if round % 4 == 0 {
+            ctx.drive("gvar.phantom", &b, &walk_phantom);
+            ctx.count("gvar.phantom");
+        }
+        // relational: the data of every glyph is exactly the generated block; clean stores yield
+        // all their tuples
+        if let Ok(gvar) = Gvar::read(FontData::new(&t.v)) {
+            for (k, (s, e)) in ranges.iter().enumerate() {
+                let r = catch(|| gvar.data_for_gid(GlyphId::new(k as u32)).map(|d| d.map(|d| d.as_bytes().to_vec())));
+                let want = if s == e { None } else { Some(t.v[*s..*e].to_vec()) };
+                ctx.oracle("gvar.data-for-gid", r == Ok(Ok(want)), || format!("gvar {} gid {}", hex(&t.v), k), || format!("got {:?}", r.as_ref().map(|r| r.as_ref().map(|d| d.as_ref().map(|d| d.len())))));
+                if let Some(n) = clean[k] {
+                    let r = catch(|| gvar.glyph_variation_data(GlyphId::new(k as u32)).ok().flatten().map(|d| d.tuples().take(5000).count()));
+                    ctx.oracle("gvar.tuple-count", r == Ok(Some(n)), || format!("gvar {} gid {}", hex(&t.v), k), || format!("expected {n} tuples, got {r:?}"));
+                }
+            }
+        }
+        // hostile offset arrays: descending, beyond the data, all equal
+        for variant in 0..4 {
+            let mut m = b.clone();
+            let base = b.len() - t.len();
+            let w = if long { 4 } else { 2 };
+            for k in 0..=n_glyphs {
+                let pos = base + 20 + k * w;
+                let v: u32 = match variant {
+                    0 => ((n_glyphs - k) * 6) as u32,
+                    1 => t.len() as u32 + k as u32 * 2,
+                    2 => 4,
+                    _ => ctx.rng.below(t.len() as u64 + 8) as u32,
+                };
+                if long {
+                    m.set32(pos, v);
+                } else {
+                    m.set16(pos, (v / 2) as u16);
+                }
+            }
+            ctx.call("gvar.offsets", &m.v, &walk_gvar);
+        }
+    }
+    ctx.drive_random("gvar", if ctx.thorough { 2000 } else { 300 }, 96, &walk_gvar);
+    ctx.drive_random("u16or32", if ctx.thorough { 600 } else { 120 }, 6, &walk_u16or32);
+}
+
+// ------------------------------------------------------------------------------------------------
+// DeltaSetIndexMap
+
+fn dsim_bytes(rng: &mut Rng, format: u8, entry_format: u8, map_count: u32) -> B {
+    let mut b = B::new();
+    b.f8(format).f8(entry_format);
+    if format == 0 {
+        b.f16(map_count as u16);
+    } else {
+        b.f32(map_count);
+    }
+    let entry_size = ((entry_format >> 4) & 3) as usize + 1;
+    b.bytes(&rng.bytes(entry_size * map_count as usize));
+    b
+}
+
+fn walk_dsim(bytes: &[u8], o: &mut Obs) {
+    let r = DeltaSetIndexMap::read(FontData::new(bytes));
+    if !o.res(&r) {
+        return;
+    }
+    let m = r.unwrap();
+    let ef = m.entry_format();
+    o.note(m.format() as u64);
+    o.note(ef.bits() as u64);
+    o.note(ef.entry_size() as u64);
+    o.note(ef.bit_count() as u64);
+    let map_count = match &m {
+        DeltaSetIndexMap::Format0(f) => f.map_count() as u32,
+        DeltaSetIndexMap::Format1(f) => f.map_count(),
+    };
+    o.note(m.map_data().len() as u64);
+    let mut ids = edge32(&[map_count as u64, (bytes.len() / 2) as u64, bytes.len() as u64]);
+    ids.extend(0..map_count.min(8));
+    let last = m.get(map_count.saturating_sub(1));
+    for i in ids {
+        let r = m.get(i);
+        if o.res(&r) {
+            let ix = r.as_ref().unwrap();
+            o.note(ix.outer as u64);
+            o.note(ix.inner as u64);
+        }
+        // an index at or beyond map_count uses the last entry
+        if i >= map_count && map_count > 0 && r != last && o.over.is_none() {
+            o.over = Some(format!("get({i}) = {r:?} but last entry get({}) = {last:?}", map_count - 1));
+        }
+    }
+}
+
+fn run_dsim(ctx: &mut Ctx) {
+    // every entry format (entry size 1..4 × inner bit count 1..16) × both formats
+    for ef in 0..=0x3Fu8 {
+        for format in [0u8, 1] {
+            let mc = match (ef as u32 + format as u32) % 4 {
+                0 => 0,
+                1 => 1,
+                _ => 2 + ctx.rng.below(4) as u32,
+            };
+            let reserved = if ctx.rng.chance(1, 8) { 0xC0 } else { 0 };
+            let b = dsim_bytes(&mut ctx.rng, format, ef | reserved, mc);
+            if ef % 4 == format {
+                ctx.drive("dsim", &b, &walk_dsim);
+            } else {
+                ctx.call("dsim", &b.v, &walk_dsim);
+            }
+            ctx.count(&format!("dsim.format{format}.size{}", ((ef >> 4) & 3) + 1));
+            // relational: the decoded entry is the big-endian value split at bit_count
+            if let Ok(m) = DeltaSetIndexMap::read(FontData::new(&b.v)) {
+                let es = ((ef >> 4) & 3) as usize + 1;
+                let bits = (ef & 0xF) as u32 + 1;
+                let hdr = if format == 0 { 4 } else { 6 };
+                for i in 0..mc + 2 {
+                    let k = i.min(mc.saturating_sub(1)) as usize;
+                    let want = if mc == 0 {
+                        None
+                    } else {
+                        let mut e = 0u32;
+                        for x in &b.v[hdr + k * es..hdr + k * es + es] {
+                            e = (e << 8) | *x as u32;
+                        }
+                        Some(DeltaSetIndex { outer: (e >> bits) as u16, inner: (e & ((1u32 << bits) - 1)) as u16 })
+                    };
+                    let got = catch(|| m.get(i).ok());
+                    ctx.oracle("dsim.get", got == Ok(want), || format!("dsim {} index {}", hex(&b.v), i), || format!("expected {want:?} got {got:?}"));
+                }
+            }
+        }
+    }
+    // large maps: count × entry size around the data length, format 1 counts up to u32::MAX
+    for (format, ef, mc, data) in [(1u8, 0x30u8, u32::MAX, 8usize), (1, 0x30, 0x4000_0000, 16), (1, 0x00, 0x1_0000, 0x1_0000), (0, 0x3F, 0xFFFF, 0xFFFF * 4), (0, 0x10, 0xFFFF, 0xFFFF * 2 - 1), (1, 0x20, 3, 8), (1, 0x20, 3, 9)] {
+        let mut b = B::new();
+        b.u8(format).u8(ef);
+        if format == 0 {
+            b.u16(mc as u16);
+        } else {
+            b.u32(mc);
+        }
+        b.zeros(data);
+        ctx.call("dsim.big", &b.v, &walk_dsim);
+    }
+    ctx.drive_random("dsim", if ctx.thorough { 4000 } else { 600 }, 20, &walk_dsim);
+    // EntryFormat helpers on every bit pattern
+    ctx.call("entry-format", &[], &|_b, o| {
+        for bits in 0..=0xFFu8 {
+            let ef = EntryFormat::from_bits_truncate(bits);
+            let es = ef.entry_size();
+            let bc = ef.bit_count();
+            if !((1..=4).contains(&es) && (1..=16).contains(&bc)) && o.over.is_none() {
+                o.over = Some(format!("EntryFormat {bits:#x}: entry_size {es} bit_count {bc}"));
+            }
+            o.note(es as u64 * 32 + bc as u64);
+        }
+    });
+}
+
+// ------------------------------------------------------------------------------------------------
+// ItemVariationStore
+
+fn row_len(word_delta_count: u16, region_index_count: u16) -> usize {
+    let long = word_delta_count & 0x8000 != 0;
+    let words = (word_delta_count & 0x7FFF) as usize;
+    let shorts = (region_index_count as usize).saturating_sub(words);
+    if long {
+        words * 4 + shorts * 2
+    } else {
+        words * 2 + shorts
+    }
+}
+
+/// returns the store and (item_count, region_index_count) per subtable
+fn ivs(rng: &mut Rng, axis_count: u16, n_regions: u16, n_data: usize) -> (B, Vec<(u16, u16)>) {
+    let mut b = B::new();
+    b.u16(1).f32(0).f16(n_data as u16);
+    let offs = b.len();
+    for _ in 0..n_data {
+        b.f32(0);
+    }
+    let at = b.len();
+    b.set32(2, at as u32);
+    b.f16(axis_count).f16(n_regions);
+    for _ in 0..n_regions {
+        for _ in 0..axis_count {
+            let vals: [i16; 3] = match rng.below(6) {
+                0 => [0, 0x4000, 0x4000],
+                1 => [-0x4000, -0x4000, 0],
+                2 => [0, 0x2000, 0x4000],
+                3 => [-0x4000, 0x2000, 0x4000],
+                4 => [0, 0, 0],
+                _ => [rcoord(rng), rcoord(rng), rcoord(rng)],
+            };
+            b.i16(vals[0]).i16(vals[1]).i16(vals[2]);
+        }
+    }
+    let mut shapes = vec![];
+    for k in 0..n_data {
+        if rng.chance(1, 8) {
+            // null offset
+            shapes.push((0, 0));
+            continue;
+        }
+        let at = b.len();
+        b.set32(offs + 4 * k, at as u32);
+        let item_count = rng.below(4) as u16;
+        let nri = match rng.below(6) {
+            0 => 0,
+            1 => 17 + rng.below(3) as u16,
+            _ => 1 + rng.below(4) as u16,
+        };
+        let mut word = match rng.below(6) {
+            0 => nri + 1 + rng.below(3) as u16,
+            1 => 0,
+            2 => nri,
+            _ => rng.below(nri as u64 + 1) as u16,
+        };
+        if rng.chance(1, 3) {
+            word |= 0x8000;
+        }
+        b.f16(item_count).f16(word).f16(nri);
+        for _ in 0..nri {
+            b.u16(if n_regions == 0 || rng.chance(1, 8) { rng.below(n_regions as u64 + 3) as u16 } else { rng.below(n_regions as u64) as u16 });
+        }
+        let n = row_len(word, nri) * item_count as usize;
+        let mut bytes = rng.bytes(n);
+        if rng.chance(1, 4) {
+            for x in bytes.iter_mut() {
+                *x = *rng.pick(&[0x7Fu8, 0x80, 0xFF, 0]);
+            }
+        }
+        b.bytes(&bytes);
+        shapes.push((item_count, nri));
+    }
+    (b, shapes)
+}
+
+fn note_region(o: &mut Obs, r: &VariationRegion, coords: &[F2Dot14]) {
+    o.note(r.region_axes().len() as u64);
+    for c in coord_variants(coords) {
+        o.note(r.compute_scalar(&c).to_bits() as u64);
+        o.note(r.compute_scalar_f32(&c).to_bits() as u64);
+    }
+}
+
+fn walk_ivs_store(o: &mut Obs, len: usize, store: &ItemVariationStore, coords: &[F2Dot14]) {
+    o.note(store.format() as u64);
+    let data_count = store.item_variation_data_count();
+    o.note(data_count as u64);
+    let rl = store.variation_region_list();
+    let mut region_count = 0usize;
+    if o.res(&rl) {
+        let rl = rl.unwrap();
+        o.note(rl.axis_count() as u64);
+        o.note(rl.region_count() as u64);
+        let regions = rl.variation_regions();
+        region_count = regions.len();
+        o.note(regions.len() as u64);
+        // items of 6 * axis_count bytes
+        let mut k = 0;
+        let n_iter = o.drain("regions.iter", len / 6 + 1, regions.iter(), |o, r| {
+            if o.res(&r) && k < 6 {
+                note_region(o, &r.unwrap(), coords);
+            }
+            k += 1;
+        });
+        if n_iter != regions.len() && o.over.is_none() {
+            o.over = Some(format!("regions.iter yields {n_iter} items, len() = {}", regions.len()));
+        }
+        for i in edge_usize(&[regions.len(), rl.region_count() as usize]) {
+            let r = regions.get(i);
+            if o.res(&r) {
+                note_region(o, &r.unwrap(), coords);
+            }
+        }
+    }
+    let ivd = store.item_variation_data();
+    let mut item_counts: Vec<u32> = vec![];
+    o.drain("item_variation_data.iter", len / 4 + 1, ivd.iter(), |o, d| match d {
+        None => o.note(0),
+        Some(d) => {
+            if o.res(&d) {
+                let d = d.unwrap();
+                item_counts.push(d.item_count() as u32);
+                walk_ivd(o, len, &d);
+            }
+        }
+    });
+    for i in edge_usize(&[data_count as usize]) {
+        match ivd.get(i) {
+            None => o.note(0),
+            Some(d) => {
+                o.res(&d);
+            }
+        }
+    }
+    let mut outers = edge16(&[data_count as u32]);
+    outers.retain(|x| *x < 4 || (*x as u32 + 2 >= data_count as u32 && *x as u32 <= data_count as u32 + 1) || *x >= 0xFFFE);
+    let mut ic: Vec<u32> = item_counts.iter().take(4).copied().collect();
+    ic.push(region_count as u32);
+    let mut inners = edge16(&ic);
+    inners.retain(|x| *x < 5 || *x >= 0xFFFE || ic.iter().any(|c| (*x as u32 + 1 >= *c) && (*x as u32 <= *c + 1)));
+    let variants = coord_variants(coords);
+    for outer in &outers {
+        for inner in &inners {
+            let ix = DeltaSetIndex { outer: *outer, inner: *inner };
+            for (k, c) in variants.iter().enumerate() {
+                if k > 1 && *inner > 3 {
+                    continue;
+                }
+                let r = store.compute_delta(ix, c);
+                if o.res(&r) {
+                    o.note(r.unwrap() as u64);
+                }
+                let r = store.compute_float_delta(ix, c);
+                if o.res(&r) {
+                    let d = r.unwrap();
+                    o.note(Fixed::ZERO.apply_float_delta(d).to_bits() as u64);
+                    o.note(Fixed::MAX.apply_float_delta(d).to_bits() as u64);
+                    o.note(font_types::FWord::new(-7).apply_float_delta(d).to_bits() as u64);
+                    o.note(font_types::UfWord::new(9).apply_float_delta(d).to_bits() as u64);
+                    o.note(F2Dot14::MIN.apply_float_delta(d).to_bits() as u64);
+                }
+            }
+        }
+    }
+}
+
+fn walk_ivd(o: &mut Obs, len: usize, d: &ItemVariationData) {
+    let item_count = d.item_count();
+    let wdc = d.word_delta_count();
+    let ric = d.region_index_count();
+    o.note(item_count as u64);
+    o.note(wdc as u64);
+    o.note(ric as u64);
+    o.note(d.region_indexes().len() as u64);
+    o.note(d.delta_sets().len() as u64);
+    let rl = d.get_delta_row_len();
+    o.note(rl as u64);
+    if rl != row_len(wdc, ric) && o.over.is_none() {
+        o.over = Some(format!("delta row len {rl} for word_delta_count {wdc:#x} region_index_count {ric}"));
+    }
+    let mut ids = edge16(&[item_count as u32]);
+    ids.retain(|x| *x < 3 || *x >= 0xFFFE || (*x as u32 + 1 >= item_count as u32 && *x as u32 <= item_count as u32 + 1));
+    for i in ids {
+        // region_index_count values, each of which needs 2 bytes of region index in the table
+        let n = o.drain("delta_set", len / 2 + 1, d.delta_set(i), |o, v| o.note(v as u64));
+        // a complete row yields one delta per region
+        if i < item_count && n != ric as usize && o.over.is_none() {
+            o.over = Some(format!("delta_set({i}) of a complete table yields {n} of {ric} values"));
+        }
+    }
+}
+
+/// `[coords][ivs]`
+fn walk_ivs(bytes: &[u8], o: &mut Obs) {
+    let Some((coords, table)) = take_coords(bytes) else { return };
+    let r = ItemVariationStore::read(FontData::new(table));
+    if !o.res(&r) {
+        return;
+    }
+    walk_ivs_store(o, table.len(), &r.unwrap(), &coords);
+}
+
+fn run_ivs(ctx: &mut Ctx) {
+    let rounds = if ctx.thorough { 240 } else { 40 };
+    for round in 0..rounds {
+        let axis_count = match round % 5 {
+            0 => 0,
+            1 => 1,
+            _ => 1 + ctx.rng.below(3) as u16,
+        };
+        let n_regions = ctx.rng.below(4) as u16;
+        let n_data = ctx.rng.below(4) as usize;
+        let (t, _) = ivs(&mut ctx.rng, axis_count, n_regions, n_data);
+        let mut b = B::new();
+        let coords = rcoords(&mut ctx.rng, axis_count.max(1));
+        put_coords(&mut b, &coords);
+        b.append(&t);
+        ctx.drive("ivs", &b, &walk_ivs);
+        ctx.count(&format!("ivs.data{n_data}"));
+    }
+    ctx.drive_random("ivs", if ctx.thorough { 3000 } else { 400 }, 64, &walk_ivs);
+    // the static length helpers on the whole boundary grid
+    ctx.call("ivs.row-len", &[], &|_b, o| {
+        let vals = edge16(&[0x7FFE, 0x8001, 0x8002, 17]);
+        for w in &vals {
+            for r in &vals {
+                let n = ItemVariationData::delta_row_len(*w, *r);
+                if n != row_len(*w, *r) && o.over.is_none() {
+                    o.over = Some(format!("delta_row_len({w:#x}, {r}) = {n}"));
+                }
+                for i in [0u16, 1, 2, 0x7FFF, 0xFFFF] {
+                    let s = ItemVariationData::delta_sets_len(i, *w, *r);
+                    if s != n * i as usize && o.over.is_none() {
+                        o.over = Some(format!("delta_sets_len({i}, {w:#x}, {r}) = {s}"));
+                    }
+                    o.note(s as u64);
+                }
+            }
+        }
+    });
+}
+
+// ------------------------------------------------------------------------------------------------
+// HVAR / VVAR
+
+/// `n_maps` = 3 (HVAR) or 4 (VVAR)
+fn metrics_var_table(rng: &mut Rng, n_maps: usize, axis_count: u16) -> B {
+    let mut b = B::new();
+    b.u16(1).u16(0).f32(0);
+    for _ in 0..n_maps {
+        b.f32(0);
+    }
+    let (store, _) = {
+        let (nr, nd) = (1 + rng.below(3) as u16, 1 + rng.below(2) as usize);
+        ivs(rng, axis_count, nr, nd)
+    };
+    let at = b.append(&store);
+    b.set32(4, at as u32);
+    for k in 0..n_maps {
+        match rng.below(5) {
+            0 => {}
+            1 if k > 0 => {
+                // shares the previous map
+                let prev = u32::from_be_bytes(b.v[8 + 4 * (k - 1)..12 + 4 * (k - 1)].try_into().unwrap());
+                b.set32(8 + 4 * k, prev);
+            }
+            _ => {
+                let ef = (rng.below(4) as u8) << 4 | rng.below(16) as u8;
+                let (f, mc) = (rng.below(2) as u8, rng.below(5) as u32);
+                let m = dsim_bytes(rng, f, ef, mc);
+                let at = b.append(&m);
+                b.set32(8 + 4 * k, at as u32);
+            }
+        }
+    }
+    b
+}
+
+fn metric_gids(o: &mut Obs, maps: &[Option<Result<DeltaSetIndexMap, ReadError>>], store: &Result<ItemVariationStore, ReadError>) -> Vec<u32> {
+    let mut marks: Vec<u64> = vec![];
+    for m in maps {
+        match m {
+            Some(Ok(DeltaSetIndexMap::Format0(f))) => marks.push(f.map_count() as u64),
+            Some(Ok(DeltaSetIndexMap::Format1(f))) => marks.push(f.map_count() as u64),
+            Some(Err(_)) => o.note(3),
+            None => o.note(4),
+        }
+    }
+    if let Ok(s) = store {
+        if let Some(Ok(d)) = s.item_variation_data().get(0) {
+            marks.push(d.item_count() as u64);
+        }
+    }
+    let mut g = edge32(&marks);
+    g.retain(|x| *x < 4 || *x >= 0xFFFF_FFFE || [0xFFFFu32, 0x10000, 0x10FFFF].contains(x) || marks.iter().any(|m| (*x as u64 + 1 >= *m) && (*x as u64 <= *m + 1)));
+    g
+}
+
+fn walk_hvar(bytes: &[u8], o: &mut Obs) {
+    let Some((coords, table)) = take_coords(bytes) else { return };
+    let r = Hvar::read(FontData::new(table));
+    if !o.res(&r) {
+        return;
+    }
+    let t = r.unwrap();
+    let gids = metric_gids(o, &[t.advance_width_mapping(), t.lsb_mapping(), t.rsb_mapping()], &t.item_variation_store());
+    for gid in gids {
+        let gid = GlyphId::new(gid);
+        for c in coord_variants(&coords) {
+            note_fixed_res(o, &t.advance_width_delta(gid, &c));
+            note_fixed_res(o, &t.lsb_delta(gid, &c));
+            note_fixed_res(o, &t.rsb_delta(gid, &c));
+        }
+    }
+}
+
+fn walk_vvar(bytes: &[u8], o: &mut Obs) {
+    let Some((coords, table)) = take_coords(bytes) else { return };
+    let r = Vvar::read(FontData::new(table));
+    if !o.res(&r) {
+        return;
+    }
+    let t = r.unwrap();
+    let gids = metric_gids(o, &[t.advance_height_mapping(), t.tsb_mapping(), t.bsb_mapping(), t.v_org_mapping()], &t.item_variation_store());
+    for gid in gids {
+        let gid = GlyphId::new(gid);
+        for c in coord_variants(&coords) {
+            note_fixed_res(o, &t.advance_height_delta(gid, &c));
+            note_fixed_res(o, &t.tsb_delta(gid, &c));
+            note_fixed_res(o, &t.bsb_delta(gid, &c));
+            note_fixed_res(o, &t.v_org_delta(gid, &c));
+        }
+    }
+}
+
+fn run_hvar_vvar(ctx: &mut Ctx) {
+    let rounds = if ctx.thorough { 120 } else { 20 };
+    for round in 0..rounds {
+        let axis_count = 1 + (round % 3) as u16;
+        for n_maps in [3usize, 4] {
+            let t = metrics_var_table(&mut ctx.rng, n_maps, axis_count);
+            let mut b = B::new();
+            let coords = rcoords(&mut ctx.rng, axis_count);
+            put_coords(&mut b, &coords);
+            b.append(&t);
+            if n_maps == 3 {
+                ctx.drive("hvar", &b, &walk_hvar);
+                ctx.count("hvar");
+            } else {
+                ctx.drive("vvar", &b, &walk_vvar);
+                ctx.count("vvar");
+            }
+        }
+    }
+    ctx.drive_random("hvar", if ctx.thorough { 1500 } else { 200 }, 64, &walk_hvar);
+    ctx.drive_random("vvar", if ctx.thorough { 1500 } else { 200 }, 64, &walk_vvar);
+}
+
+// ------------------------------------------------------------------------------------------------
+// MVAR
+
+const MVAR_TAGS: [&[u8; 4]; 10] = [b"hasc", b"hdsc", b"hlgp", b"xhgt", b"cpht", b"undo", b"unds", b"stro", b"strs", b"gsp0"];
+
+fn mvar_table(rng: &mut Rng, tags: &[[u8; 4]], axis_count: u16, with_store: bool) -> B {
+    let mut b = B::new();
+    b.u16(1).u16(0).u16(0).f16(8).f16(tags.len() as u16).f16(0);
+    for t in tags {
+        b.tag(t).u16(rng.below(3) as u16).u16(rng.below(4) as u16);
+    }
+    if with_store {
+        let (store, _) = {
+        let (nr, nd) = (1 + rng.below(3) as u16, 1 + rng.below(2) as usize);
+        ivs(rng, axis_count, nr, nd)
+    };
+        let at = b.append(&store);
+        b.set16(10, at as u16);
+    }
+    b
+}
+
+fn walk_mvar(bytes: &[u8], o: &mut Obs) {
+    let Some((coords, table)) = take_coords(bytes) else { return };
+    let r = Mvar::read(FontData::new(table));
+    if !o.res(&r) {
+        return;
+    }
+    let t = r.unwrap();
+    let recs = t.value_records();
+    o.note(recs.len() as u64);
+    o.note(t.value_record_size() as u64);
+    let mut tags: Vec<u32> = vec![0, 1, 0x2020_2020, 0x7F7F_7F7F, 0xFFFF_FFFE, 0xFFFF_FFFF];
+    let picks: Vec<usize> = if recs.len() <= 12 { (0..recs.len()).collect() } else { vec![0, 1, 2, recs.len() / 2, recs.len() - 3, recs.len() - 2, recs.len() - 1] };
+    for i in &picks {
+        let v = u32::from_be_bytes(recs[*i].value_tag().to_be_bytes());
+        tags.extend([v.wrapping_sub(1), v, v.wrapping_add(1)]);
+    }
+    for t4 in MVAR_TAGS {
+        tags.push(u32::from_be_bytes(*t4));
+    }
+    tags.sort();
+    tags.dedup();
+    let sorted = recs.windows(2).all(|w| w[0].value_tag() < w[1].value_tag());
+    for tag in tags {
+        let tag = Tag::from_be_bytes(tag.to_be_bytes());
+        for (k, c) in coord_variants(&coords).iter().enumerate() {
+            let r = t.metric_delta(tag, c);
+            note_fixed_res(o, &r);
+            // binary search over sorted records finds every tag that is present, and nothing else
+            if k == 0 && sorted {
+                let present = recs.iter().any(|r| r.value_tag() == tag);
+                let missing = matches!(r, Err(ReadError::MetricIsMissing(_)));
+                if present == missing && o.over.is_none() {
+                    o.over = Some(format!("metric_delta({tag}) present={present} but result {r:?}"));
+                }
+            }
+        }
+    }
+}
+
+fn run_mvar(ctx: &mut Ctx) {
+    let rounds = if ctx.thorough { 180 } else { 32 };
+    for round in 0..rounds {
+        let n = match round % 6 {
+            0 => 0,
+            1 => 1,
+            2 => 2,
+            _ => 3 + ctx.rng.below(7) as usize,
+        };
+        let mut tags: Vec<[u8; 4]> = vec![];
+        while tags.len() < n {
+            let t = **ctx.rng.pick(&MVAR_TAGS);
+            if !tags.contains(&t) {
+                tags.push(t);
+            }
+        }
+        tags.sort();
+        match round % 4 {
+            1 => ctx.rng.shuffle(&mut tags),
+            2 if n > 1 => tags[n - 1] = tags[0],
+            _ => {}
+        }
+        let axis_count = 1 + ctx.rng.below(2) as u16;
+        let t = mvar_table(&mut ctx.rng, &tags, axis_count, round % 5 != 4);
+        let mut b = B::new();
+        let coords = rcoords(&mut ctx.rng, axis_count);
+        put_coords(&mut b, &coords);
+        b.append(&t);
+        ctx.drive("mvar", &b, &walk_mvar);
+        ctx.count(match round % 4 {
+            1 => "mvar.shuffled",
+            2 => "mvar.duplicate",
+            _ => "mvar.sorted",
+        });
+    }
+    // every record count 0..=40 with sorted tags: each one must be found
+    for n in 0..=40u32 {
+        let tags: Vec<[u8; 4]> = (0..n).map(|k| (0x6100_0000u32 + k * 3).to_be_bytes()).collect();
+        let t = mvar_table(&mut ctx.rng, &tags, 1, true);
+        let mut b = B::new();
+        put_coords(&mut b, &[0x2000]);
+        b.append(&t);
+        ctx.call("mvar.sweep", &b.v, &walk_mvar);
+    }
+    ctx.drive_random("mvar", if ctx.thorough { 1500 } else { 200 }, 64, &walk_mvar);
+}
+
+// ------------------------------------------------------------------------------------------------
+// avar
+
+fn segment_map(rng: &mut Rng, b: &mut B) {
+    let n = match rng.below(6) {
+        0 => 0,
+        1 => 1,
+        2 => 3,
+        _ => 2 + rng.below(5) as usize,
+    };
+    b.f16(n as u16);
+    let mut from: Vec<i16> = (0..n).map(|_| rcoord(rng)).collect();
+    match rng.below(4) {
+        0 => {}
+        1 if n > 1 => {
+            from.sort();
+            from[n - 1] = from[n - 2];
+        }
+        _ => from.sort(),
+    }
+    for f in from {
+        b.i16(f).i16(rcoord(rng));
+    }
+}
+
+fn avar_table(rng: &mut Rng, version: u16, axis_count: u16) -> B {
+    let mut b = B::new();
+    b.f16(version).u16(0).u16(0).f16(axis_count);
+    for _ in 0..axis_count {
+        segment_map(rng, &mut b);
+    }
+    if version >= 2 {
+        let at = b.len();
+        b.f32(0).f32(0);
+        if rng.chance(3, 4) {
+            let ef = (rng.below(4) as u8) << 4 | rng.below(16) as u8;
+            let (f, mc) = (rng.below(2) as u8, rng.below(axis_count as u64 + 2) as u32);
+            let m = dsim_bytes(rng, f, ef, mc);
+            let p = b.append(&m);
+            b.set32(at, p as u32);
+        }
+        if rng.chance(3, 4) {
+            let (s, _) = {
+        let (nr, nd) = (1 + rng.below(3) as u16, 1 + rng.below(2) as usize);
+        ivs(rng, axis_count, nr, nd)
+    };
+            let p = b.append(&s);
+            b.set32(at + 4, p as u32);
+        }
+    }
+    b
+}
+
+fn note_segment_map(o: &mut Obs, m: &SegmentMaps, extra: &[F2Dot14]) {
+    let maps = m.axis_value_maps();
+    o.note(maps.len() as u64);
+    let mut xs: Vec<i32> = vec![0, 1, -1, 0x10000, -0x10000, 0x8000, i32::MAX, i32::MIN, i32::MAX - 1, i32::MIN + 1];
+    for avm in maps.iter().take(10) {
+        let f = avm.from_coordinate().to_fixed().to_bits();
+        xs.extend([f.wrapping_sub(1), f, f.wrapping_add(1), f.wrapping_add(2), f.wrapping_sub(4)]);
+    }
+    for e in extra {
+        xs.push(e.to_fixed().to_bits());
+    }
+    xs.sort();
+    xs.dedup();
+    let sorted = maps.windows(2).all(|w| w[0].from_coordinate() < w[1].from_coordinate());
+    for x in xs {
+        let r = m.apply(Fixed::from_bits(x));
+        o.note(r.to_bits() as u64);
+        if sorted {
+            // an exact from-coordinate maps to its to-coordinate
+            if let Some(avm) = maps.iter().find(|a| a.from_coordinate().to_fixed().to_bits() == x) {
+                if r != avm.to_coordinate().to_fixed() && o.over.is_none() {
+                    o.over = Some(format!("SegmentMaps::apply({x:#x}) = {:#x}, expected the to-coordinate", r.to_bits()));
+                }
+            }
+        }
+    }
+}
+
+fn walk_avar_table(o: &mut Obs, len: usize, avar: &Avar, coords: &[F2Dot14]) {
+    o.note(avar.version().major as u64);
+    let axis_count = avar.axis_count() as usize;
+    o.note(axis_count as u64);
+    let maps = avar.axis_segment_maps();
+    // every segment map takes at least 2 bytes
+    let mut k = 0;
+    let mut counts: Vec<Option<usize>> = vec![];
+    let n = o.drain("segment_maps.iter", len / 2 + 1, maps.iter(), |o, m| {
+        counts.push(m.as_ref().ok().map(|m| m.axis_value_maps().len()));
+        if o.res(&m) && k < 8 {
+            note_segment_map(o, &m.unwrap(), coords);
+        }
+        k += 1;
+    });
+    // random access agrees with iteration
+    for (i, c) in counts.iter().enumerate().take(12) {
+        let got = maps.get(i).map(|m| m.ok().map(|m| m.axis_value_maps().len()));
+        if got != Some(*c) && o.over.is_none() {
+            o.over = Some(format!("axis_segment_maps().get({i}) = {got:?}, iter gives {c:?}"));
+        }
+    }
+    if n != axis_count && o.over.is_none() {
+        o.over = Some(format!("axis_segment_maps yields {n} maps for axis_count {axis_count}"));
+    }
+    for i in edge_usize(&[axis_count]) {
+        match maps.get(i) {
+            None => o.note(0),
+            Some(m) => {
+                if o.res(&m) {
+                    o.note(m.unwrap().axis_value_maps().len() as u64);
+                }
+            }
+        }
+    }
+    if let Some(m) = avar.axis_index_map() {
+        if o.res(&m) {
+            let m = m.unwrap();
+            for i in edge32(&[axis_count as u64]) {
+                o.res(&m.get(i));
+            }
+        }
+    }
+    if let Some(s) = avar.var_store() {
+        if o.res(&s) {
+            walk_ivs_store(o, len, &s.unwrap(), coords);
+        }
+    }
+}
+
+fn walk_avar(bytes: &[u8], o: &mut Obs) {
+    let Some((coords, table)) = take_coords(bytes) else { return };
+    let r = Avar::read(FontData::new(table));
+    if !o.res(&r) {
+        return;
+    }
+    walk_avar_table(o, table.len(), &r.unwrap(), &coords);
+}
+
+/// `SegmentMaps` directly: `FontRead::read` and `VarSize::read_len_at` at every position
+fn walk_segment_maps(bytes: &[u8], o: &mut Obs) {
+    let data = FontData::new(bytes);
+    let r = SegmentMaps::read(data);
+    if o.res(&r) {
+        note_segment_map(o, &r.unwrap(), &[]);
+    }
+    for pos in edge_usize(&[bytes.len(), bytes.len().saturating_sub(2)]) {
+        let n = <SegmentMaps as VarSize>::read_len_at(data, pos);
+        o.note(n.map(|v| (v as u64).wrapping_add(1)).unwrap_or(0));
+    }
+    for count in edge_usize(&[bytes.len() / 2, bytes.len()]) {
+        let r = <SegmentMaps as VarSize>::total_len_for_count(data, count.min(1 << 20));
+        if o.res(&r) {
+            o.note(r.unwrap() as u64);
+        }
+    }
+}
+
+/// `array.rs`: `impl FontReadWithArgs for &[T]` (`[count u16][data]`), and the packed point / delta
+/// containers behind the tuple accessors (`[packed data]`)
+fn walk_slice_and_packed(bytes: &[u8], o: &mut Obs) {
+    use font_types::BigEndian;
+    use read_fonts::tables::variations::{DeltaRunType, PackedDeltas, PackedPointNumbers};
+    let len = bytes.len();
+    if let Some(count) = be16(bytes, 0) {
+        let data = FontData::new(&bytes[2..]);
+        for c in [count, 0, 1, ((len - 2) / 2) as u16, ((len - 2) / 2 + 1) as u16, 0x7FFF, 0x8000, 0xFFFF] {
+            let r = <&[BigEndian<u16>]>::read_with_args(data, &c);
+            if o.res(&r) {
+                let r = r.unwrap();
+                o.note(r.len() as u64);
+                if r.len() != c as usize && o.over.is_none() {
+                    o.over = Some(format!("<&[u16]>::read_with_args(count {c}) has {} items", r.len()));
+                }
+            }
+            let r = <&[u8]>::read_with_args(data, &c);
+            if o.res(&r) {
+                o.note(r.unwrap().len() as u64);
+            }
+            let r = <&[BigEndian<u32>]>::read_with_args(data, &c);
+            if o.res(&r) {
+                o.note(r.unwrap().len() as u64);
+            }
+        }
+    }
+    let (points, rest) = PackedPointNumbers::split_off_front(FontData::new(bytes));
+    o.note(points.count() as u64);
+    o.note(rest.len() as u64);
+    if rest.len() > len && o.over.is_none() {
+        o.over = Some("split_off_front remainder longer than the data".into());
+    }
+    // at most 0x7FFF explicit points, or 0 ..= 0xFFFE for "all points"
+    o.drain("packed_points.iter", 65536, points.iter(), |o, p| o.note(p as u64));
+    let deltas = PackedDeltas::consume_all(FontData::new(bytes));
+    // every byte yields at most 64 deltas
+    o.drain("packed_deltas.iter", 64 * len + 64, deltas.iter(), |o, d| o.note(d as u64));
+    if let Some(c) = bytes.first() {
+        o.note(DeltaRunType::new(*c) as u64);
+    }
+}
+
+fn run_avar(ctx: &mut Ctx) {
+    let rounds = if ctx.thorough { 300 } else { 50 };
+    for round in 0..rounds {
+        let version = match round % 5 {
+            0 | 1 => 1,
+            4 => 3,
+            _ => 2,
+        };
+        let axis_count = match round % 4 {
+            0 => 0,
+            1 => 1,
+            _ => 1 + ctx.rng.below(4) as u16,
+        };
+        let t = avar_table(&mut ctx.rng, version, axis_count);
+        let mut b = B::new();
+        let coords = rcoords(&mut ctx.rng, axis_count);
+        put_coords(&mut b, &coords);
+        b.append(&t);
+        ctx.drive("avar", &b, &walk_avar);
+        ctx.count(&format!("avar.v{version}"));
+    }
+    for _ in 0..(if ctx.thorough { 60 } else { 12 }) {
+        let mut b = B::new();
+        segment_map(&mut ctx.rng, &mut b);
+        if ctx.rng.chance(1, 2) {
+            b.bytes(&ctx.rng.bytes(3));
+        }
+        ctx.drive("segment-maps", &b, &walk_segment_maps);
+    }
+    for _ in 0..(if ctx.thorough { 120 } else { 24 }) {
+        let mut b = B::new();
+        let mut intact = true;
+        if ctx.rng.chance(1, 2) {
+            let (p, n) = packed_points(&mut ctx.rng, &mut intact);
+            b.bytes(&p);
+            let vals: Vec<i32> = (0..n.max(3)).map(|_| rdelta(&mut ctx.rng)).collect();
+            b.bytes(&packed_deltas(&vals, &mut ctx.rng));
+        } else {
+            let n = ctx.rng.below(9) as u16;
+            b.f16(n);
+            b.bytes(&ctx.rng.bytes(2 * n as usize));
+            b.bytes(&rbytes(&mut ctx.rng, 3));
+        }
+        ctx.drive("slice-and-packed", &b, &walk_slice_and_packed);
+    }
+    ctx.drive_random("slice-and-packed", if ctx.thorough { 3000 } else { 500 }, 24, &walk_slice_and_packed);
+    ctx.drive_random("avar", if ctx.thorough { 2000 } else { 300 }, 48, &walk_avar);
+    ctx.drive_random("segment-maps", if ctx.thorough { 2000 } else { 300 }, 24, &walk_segment_maps);
+}
+
+// ------------------------------------------------------------------------------------------------
+// fvar + InstanceRecord
+
+fn rfixed(rng: &mut Rng) -> i32 {
+    match rng.below(10) {
+        0 => i32::MIN,
+        1 => i32::MAX,
+        2 => 0,
+        3 => 0x10000,
+        4 => -0x10000,
+        5 => rng.next() as i32,
+        _ => (rng.range(-1000, 1000) as i32) << 16,
+    }
+}
+
+struct FvarSpec {
+    axis_count: u16,
+    instance_count: u16,
+    instance_size: u16,
+    sorted_axes: bool,
+}
+
+fn fvar_table(rng: &mut Rng, s: &FvarSpec) -> B {
+    let mut b = B::new();
+    b.u16(1).u16(0).f16(16).u16(2).f16(s.axis_count).f16(20).f16(s.instance_count).f16(s.instance_size);
+    for k in 0..s.axis_count {
+        let mut v = [rfixed(rng), rfixed(rng), rfixed(rng)];
+        if s.sorted_axes {
+            v.sort();
+        }
+        // a repeated tag: user_to_normalized updates every axis with that tag
+        let tag = if k % 3 == 2 { *b"wght" } else { [b'a' + (k % 26) as u8, b'x', b'i', b's'] };
+        b.tag(&tag).i32(v[0]).i32(v[1]).i32(v[2]).u16(0).u16(256 + k);
+    }
+    for k in 0..s.instance_count {
+        let at = b.len();
+        b.u16(300 + k).u16(0);
+        for _ in 0..s.axis_count {
+            b.i32(rfixed(rng));
+        }
+        b.u16(if k % 2 == 0 { 0xFFFF } else { 400 + k });
+        b.v.resize(at + s.instance_size as usize, 0);
+    }
+    b
+}
+
+/// `[fvar_len u16][fvar][avar]`
+fn walk_fvar(bytes: &[u8], o: &mut Obs) {
+    let Some(flen) = be16(bytes, 0) else { return };
+    let rest = &bytes[2..];
+    let flen = (flen as usize).min(rest.len());
+    let (ft, at) = rest.split_at(flen);
+    let r = Fvar::read(FontData::new(ft));
+    if !o.res(&r) {
+        return;
+    }
+    let fvar = r.unwrap();
+    let len = ft.len();
+    let axis_count = fvar.axis_count() as usize;
+    o.note(axis_count as u64);
+    o.note(fvar.instance_count() as u64);
+    o.note(fvar.instance_size() as u64);
+    let axes = fvar.axes();
+    let mut probes: Vec<(Tag, Fixed)> = vec![(Tag::new(b"zzzz"), Fixed::ONE)];
+    if o.res(&axes) {
+        let axes = axes.unwrap();
+        o.note(axes.len() as u64);
+        let step = (axes.len() / 8).max(1);
+        for a in axes.iter().step_by(step).take(9) {
+            let marks = [a.min_value().to_bits(), a.default_value().to_bits(), a.max_value().to_bits()];
+            let mut xs: Vec<i32> = vec![0, 1, -1, i32::MIN, i32::MAX, 0x10000];
+            for m in marks {
+                xs.extend([m.wrapping_sub(1), m, m.wrapping_add(1)]);
+            }
+            xs.extend([(marks[0] / 2).wrapping_add(marks[1] / 2), (marks[1] / 2).wrapping_add(marks[2] / 2)]);
+            for x in xs {
+                let n = a.normalize(Fixed::from_bits(x));
+                o.note(n.to_bits() as u64);
+                if !(-0x10000..=0x10000).contains(&n.to_bits()) && o.over.is_none() {
+                    o.over = Some(format!("normalize({x:#x}) = {:#x} outside [-1, 1]", n.to_bits()));
+                }
+                probes.push((a.axis_tag(), Fixed::from_bits(x)));
+            }
+        }
+    }
+    let inst = fvar.instances();
+    if o.res(&inst) {
+        let inst = inst.unwrap();
+        o.note(inst.len() as u64);
+        o.note(inst.is_empty() as u64);
+        // items of instance_size > 0 bytes
+        let n_iter = o.drain("instances.iter", len + 1, inst.iter(), |o, r| {
+            if o.res(&r) {
+                let r = r.unwrap();
+                o.note(r.subfamily_name_id.to_u16() as u64);
+                o.note(r.coordinates.len() as u64);
+                o.note(r.post_script_name_id.map(|n| n.to_u16() as u64 + 1).unwrap_or(0));
+            }
+        });
+        if n_iter != inst.len() && o.over.is_none() {
+            o.over = Some(format!("instances.iter yields {n_iter} items, len() = {}", inst.len()));
+        }
+        for i in edge_usize(&[inst.len(), fvar.instance_count() as usize]) {
+            let r = inst.get(i);
+            if o.res(&r) {
+                let r = r.unwrap();
+                o.note(r.flags as u64);
+                o.note(r.coordinates.len() as u64);
+                o.note(r.post_script_name_id.map(|n| n.to_u16() as u64 + 1).unwrap_or(0));
+            }
+        }
+    }
+    let avar = if at.is_empty() { None } else { Avar::read(FontData::new(at)).ok() };
+    o.note(avar.is_some() as u64);
+    // user coordinates: a few at a time (the last one for a tag wins), and all at once
+    let mut sets: Vec<Vec<(Tag, Fixed)>> = vec![vec![], probes.clone()];
+    for w in probes.chunks(3).take(24) {
+        sets.push(w.to_vec());
+    }
+    let mut lens = vec![0usize, axis_count.saturating_sub(1), axis_count, axis_count + 1, 63, 64, 65, 70];
+    lens.sort();
+    lens.dedup();
+    for (k, set) in sets.iter().enumerate() {
+        for n in &lens {
+            if k > 3 && *n != axis_count {
+                continue;
+            }
+            if k > 3 && axis_count > 16 {
+                continue;
+            }
+            let mut out = vec![F2Dot14::from_bits(0x1234); *n];
+            fvar.user_to_normalized(avar.as_ref(), set.iter().copied(), &mut out);
+            for v in out.iter().take(70) {
+                o.note(v.to_bits() as u64);
+            }
+            if avar.is_some() {
+                let mut out = vec![F2Dot14::from_bits(0x1234); *n];
+                fvar.user_to_normalized(None, set.iter().copied(), &mut out);
+                for v in out.iter().take(70) {
+                    o.note(v.to_bits() as u64);
+                }
+            }
+        }
+    }
+}
+
+/// `[axis_count u16][instance_size u16][record bytes]`
+fn walk_instance(bytes: &[u8], o: &mut Obs) {
+    let (Some(ac), Some(size)) = (be16(bytes, 0), be16(bytes, 2)) else { return };
+    let data = FontData::new(&bytes[4..]);
+    let mut acs = vec![ac, 0, 1, ac.wrapping_add(1), ac.wrapping_sub(1), 0xFFFF];
+    acs.dedup();
+    for ac in acs {
+        let common = 4 + 4 * ac as usize;
+        let mut sizes: Vec<u16> = vec![size, 0, 1, 0xFFFF];
+        for d in [-1i64, 0, 1, 2, 3] {
+            let v = common as i64 + d;
+            if (0..=0xFFFF).contains(&v) {
+                sizes.push(v as u16);
+            }
+        }
+        sizes.sort();
+        sizes.dedup();
+        for size in sizes {
+            o.res(&InstanceRecord::compute_size(&(ac, size)));
+            let r = InstanceRecord::read(data, ac, size);
+            if o.res(&r) {
+                let r = r.unwrap();
+                o.note(r.subfamily_name_id.to_u16() as u64);
+                o.note(r.flags as u64);
+                o.note(r.coordinates.len() as u64);
+                o.note(r.post_script_name_id.map(|n| n.to_u16() as u64 + 1).unwrap_or(0));
+                // the optional field is read exactly when the record is large enough to hold it
+                let has = size as usize >= common + 2;
+                let raw = be16(&bytes[4..], common);
+                let want = if has { raw.filter(|v| *v != 0xFFFF) } else { None };
+                if r.coordinates.len() != ac as usize || r.post_script_name_id.map(|n| n.to_u16()) != want {
+                    if o.over.is_none() {
+                        o.over = Some(format!("InstanceRecord::read(axis_count {ac}, instance_size {size}): coords {} psname {:?}, expected {want:?}", r.coordinates.len(), r.post_script_name_id));
+                    }
+                }
+            }
+        }
+    }
+}
+
+fn run_fvar(ctx: &mut Ctx) {
+    let rounds = if ctx.thorough { 120 } else { 22 };
+    for round in 0..rounds {
+        let axis_count = match round % 11 {
+            0 => 0,
+            1 => 1,
+            9 => 64,
+            10 => 65,
+            _ => 1 + ctx.rng.below(4) as u16,
+        };
+        let common = 4 + 4 * axis_count;
+        let instance_size = match round % 6 {
+            0 => common,
+            1 => common + 2,
+            2 => common + 1,
+            3 => common.saturating_sub(1),
+            4 => 0,
+            _ => common + 4,
+        };
+        let instance_count = if axis_count > 60 { 1 } else { ctx.rng.below(4) as u16 };
+        let spec = FvarSpec { axis_count, instance_count, instance_size, sorted_axes: round % 3 != 0 };
+        let t = fvar_table(&mut ctx.rng, &spec);
+        let avar = match round % 4 {
+            0 => B::new(),
+            1 => avar_table(&mut ctx.rng, 1, axis_count),
+            2 => avar_table(&mut ctx.rng, 2, axis_count),
+            _ => avar_table(&mut ctx.rng, 2, axis_count.saturating_sub(1)),
+        };
+        let mut b = B::new();
+        b.f16(t.len() as u16);
+        b.append(&t);
+        b.append(&avar);
+        if axis_count >= 64 {
+            // large tables: sweep the header fields and a sample of the others
+            let mut keep: Vec<(usize, u8)> = b.fields.iter().take(8).copied().collect();
+            for _ in 0..10 {
+                keep.push(*ctx.rng.pick(&b.fields));
+            }
+            b.fields = keep;
+        }
+        ctx.drive("fvar", &b, &walk_fvar);
+        ctx.count(&format!("fvar.avar{}", round % 4));
+        if axis_count >= 64 {
+            ctx.count("fvar.many-axes");
+        }
+    }
+    // normalize: min / default / max in every order over the boundary grid
+    let grid = [i32::MIN, i32::MIN + 1, -0x10000, -1, 0, 1, 0x10000, i32::MAX - 1, i32::MAX];
+    for mn in grid {
+        let mut b = B::new();
+        let mut n = 0u16;
+        let mut body = B::new();
+        for df in grid {
+            for mx in grid {
+                body.tag(b"wght").i32(mn).i32(df).i32(mx).u16(0).u16(256);
+                n += 1;
+            }
+        }
+        b.u16(1).u16(0).u16(16).u16(2).u16(n).u16(20).u16(0).u16(0);
+        b.append(&body);
+        ctx.call("fvar.normalize-grid", &b.v, &|bytes, o| {
+            let Ok(fvar) = Fvar::read(FontData::new(bytes)) else { return };
+            let Ok(axes) = fvar.axes() else { return };
+            for a in axes {
+                for x in [i32::MIN, i32::MIN + 1, -0x10000, -1, 0, 1, 0x10000, i32::MAX - 1, i32::MAX, 0x8000, -0x8000] {
+                    let v = a.normalize(Fixed::from_bits(x));
+                    o.note(v.to_bits() as u64);
+                    if !(-0x10000..=0x10000).contains(&v.to_bits()) && o.over.is_none() {
+                        o.over = Some(format!("normalize({x:#x}) = {:#x} outside [-1, 1]", v.to_bits()));
+                    }
+                }
+            }
+        });
+    }
+    // InstanceRecord: axis_count × instance_size around every threshold
+    for ac in [0u16, 1, 2, 5] {
+        for extra in 0..4u16 {
+            let mut b = B::new();
+            let common = 4 + 4 * ac;
+            b.f16(ac).f16(common + extra);
+            b.u16(300).u16(0);
+            for _ in 0..ac {
+                b.i32(rfixed(&mut ctx.rng));
+            }
+            b.u16(if extra % 2 == 0 { 0xFFFF } else { 401 });
+            b.bytes(&ctx.rng.bytes(extra as usize));
+            ctx.drive("instance-record", &b, &walk_instance);
+        }
+    }
+    ctx.drive_random("fvar", if ctx.thorough { 2000 } else { 300 }, 80, &walk_fvar);
+    ctx.drive_random("instance-record", if ctx.thorough { 2000 } else { 300 }, 24, &walk_instance);
+}
+
+pub fn run(ctx: &mut Ctx) {
+    let sections: [(&str, fn(&mut Ctx)); 9] = [
+        ("tvh", run_tvh),
+        ("cvar", run_cvar),
+        ("gvar", run_gvar),
+        ("dsim", run_dsim),
+        ("ivs", run_ivs),
+        ("hvar-vvar", run_hvar_vvar),
+        ("mvar", run_mvar),
+        ("avar", run_avar),
+        ("fvar", run_fvar),
+    ];
+    let timing = std::env::var_os("C01_HAND_TIMING").is_some();
+    for (name, f) in sections {
+        let t0 = std::time::Instant::now();
+        f(ctx);
+        if timing {
+            eprintln!("vars.{name}: {:.2}s", t0.elapsed().as_secs_f64());
+        }
+    }
+}
